@@ -8,7 +8,9 @@ import (
 	"os"
 	"os/exec"
 	"path/filepath"
+	"runtime"
 	"strings"
+	"syscall"
 	"time"
 
 	"verif/kit"
@@ -88,6 +90,11 @@ func raceCheck() []kit.V {
 	ctx, cancel := context.WithTimeout(context.Background(), 3*time.Minute)
 	defer cancel()
 	cmd := exec.CommandContext(ctx, bin, "-racepass")
+	// the pass must not outlive this process (which may end early); the signal is
+	// tied to the thread that starts the child, so this goroutine keeps its thread
+	runtime.LockOSThread()
+	defer runtime.UnlockOSThread()
+	cmd.SysProcAttr = &syscall.SysProcAttr{Pdeathsig: syscall.SIGKILL}
 	cmd.Env = append(os.Environ(), "GORACE=halt_on_error=1 exitcode=66")
 	out, err := cmd.CombinedOutput()
 	if err == nil {
